@@ -61,7 +61,7 @@ func minimise(p *Prop, t *Trial, class string, budget int) (*Trial, int) {
 		progress := false
 		// 1. whole runs to the baseline schedule / no knobs
 		for i := range best.Runs {
-			if len(best.Runs[i].Replay) == 0 && best.Runs[i].NumCPU == 1 && best.Runs[i].MapMode == 0 && best.Runs[i].Chunk == 0 {
+			if len(best.Runs[i].Replay) == 0 && best.Runs[i].NumCPU == 1 && best.Runs[i].MaxProcs == 0 && best.Runs[i].MapMode == 0 && best.Runs[i].Chunk == 0 {
 				continue
 			}
 			c := cloneTrial(best)
@@ -69,16 +69,24 @@ func minimise(p *Prop, t *Trial, class string, budget int) (*Trial, int) {
 			if nb, ok := m.fails(c); ok {
 				best, progress = nb, true
 			}
-			for _, knob := range []string{"numcpu", "mapmode", "chunk", "threads"} {
+			for _, knob := range []string{"maxprocs", "numcpu", "mapmode", "chunk", "threads"} {
 				c := cloneTrial(best)
 				rc := &c.Runs[i]
 				rc.Arity = nil
 				switch knob {
+				case "maxprocs":
+					if rc.MaxProcs == 0 {
+						continue
+					}
+					rc.MaxProcs = 0
 				case "numcpu":
 					if rc.NumCPU == 1 {
 						continue
 					}
 					rc.NumCPU = 1
+					if rc.MaxProcs > 0 {
+						rc.MaxProcs = 1
+					}
 				case "mapmode":
 					if rc.MapMode == 0 {
 						continue
